@@ -98,7 +98,21 @@ def run(ctx):
   for has_thr, nq, tag in [(True, 2, 'thr'), (False, 2, 'nothr')]:
     cfg = os.path.join(ctx.work, 'MC_Lifecycle_%s.cfg' % tag)
     write_cfg(cfg, has_thr, nq, depth_mc, maxobjs=2, maxh=1)
-    ctx.model('MC_Lifecycle', cfg, tag='MC_Lifecycle_' + tag)
+    dump = os.path.join(ctx.work, 'lifecycle_' + tag)
+    r = core.run_tlc('MC_Lifecycle', cfg, ctx.work, workers=core.NCPU, extra=['-dump', dump], xmx='6g', tag='MC_Lifecycle_' + tag)
+    core.require_model_ok(r, 'MC_Lifecycle')
+    ctx.states += r.distinct
+    ctx.transitions += r.generated
+    ctx.cmds.append(r.cmd)
+    ctx.models.append(dict(module='MC_Lifecycle', cfg=tag, distinct=r.distinct, generated=r.generated, depth=r.depth,
+                           wall_s=round(r.wall, 1)))
+    # vacuity: which actions of the machine were actually taken in the explored state graph (from the `last` variable)
+    import re as _re
+    heads = _re.findall(r'last = <<"([A-Za-z]+)"(?:, \d+, "([A-Za-z]+)")?', open(dump + '.dump').read())
+    cov = ctx.extra.setdefault('action_coverage', {})
+    for h, sub in heads:
+      k = h if h != 'NotFitted' else 'NotFitted:' + sub
+      cov[tag + ':' + k] = cov.get(tag + ':' + k, 0) + 1
   num = 40 if ctx.quick else 400
   depth = 14 if ctx.quick else 22
   hs = {'thr': histories(ctx, True, 8, num, depth, 'thr', fit_transform=False),
